@@ -5,6 +5,7 @@ mod engine_life;
 mod engine_model;
 mod engine_hist;
 mod engine_opts;
+mod engine_ssi;
 mod lin;
 mod engine_views;
 mod exec;
@@ -101,6 +102,8 @@ fn main() {
         "model" => engine_model::main(&args),
         "replay" => engine_model::replay_main(&args),
         "shrink" => engine_model::shrink_main(&args),
+        "ssi" => engine_ssi::main(&args),
+        "ssi-replay" => engine_ssi::replay_main(&args),
         "hist" => engine_hist::main(&args),
         "hist-replay" => engine_hist::replay_main(&args),
         "views" => engine_views::main(&args),
